@@ -1,6 +1,6 @@
 #!/bin/bash
 # usage: tools/seed_round.sh <dirprefix> <tag> C02 c02 [C17 c17 ...]  -> /tmp/<dirprefix>_<lc>/_out/patch{1,2,3}; names Cnn-<tag>i
-cd /verif
+cd "$(dirname "$0")/.."
 pre=$1; tag=$2; shift 2
 while [ $# -gt 0 ]; do
   P=$1; lc=$2; shift 2
